@@ -1214,6 +1214,8 @@ def parity_of(cond: P):
 def mk_ite(c: P, a: P, b: P) -> P:
     if a.key() == b.key():
         return a
+    if c.key() in ("True", "False"):
+        return a if c.key() == "True" else b         # a constant a helper's argument put there
     c, pol = canon_guard(c, True)
     if not pol:
         a, b = b, a
